@@ -38,6 +38,22 @@ Proof. vm_compute. split; reflexivity. Qed.
 Example ex_in_place : wf_locks (ex_skel (ex_add true false true)) = false.
 Proof. vm_compute. reflexivity. Qed.
 
+(** r.knownRules updated AFTER the swap, still under the writer lock: accepted
+    (the store is the linearization point; the plain field catches up before the lock is released) *)
+Example ex_late_bookkeeping :
+  wf_skel 0 (ex_skel [SEv (ELock 0); SDefer (EUnlock 0); SEv (ELoad 0 1); SEv (EClone 1 0); SEv (EObjWrite 1);
+                      SEv (ELock 1); SEv (EStore 1 1); SEv (EUnlock 1); SEv (ERead 0); SEv (EWrite 0); SReturn]) = true.
+Proof. vm_compute. reflexivity. Qed.
+
+(** ... but not after the writer lock has been released, and no second look at the pointer *)
+Example ex_late_outside :
+  wf_cow 0 (ex_skel [SEv (ELock 0); SEv (ELoad 0 1); SEv (EClone 1 0); SEv (EObjWrite 1);
+                     SEv (ELock 1); SEv (EStore 1 1); SEv (EUnlock 1); SEv (EUnlock 0);
+                     SEv (ELock 0); SEv (ERead 0); SEv (EWrite 0); SEv (EUnlock 0)]) = false /\
+  wf_cow 0 (ex_skel [SEv (ELock 0); SDefer (EUnlock 0); SEv (ELoad 0 1); SEv (EClone 1 0); SEv (EObjWrite 1);
+                     SEv (ELock 1); SEv (EStore 1 1); SEv (EUnlock 1); SEv (ELoad 2 1)]) = false.
+Proof. vm_compute. split; reflexivity. Qed.
+
 (** tree lock taken before the writer lock in one method: rejected (lock order) *)
 Example ex_lock_order :
   wf_locks (ex_skel [SEv (ELock 1); SEv (ELock 0); SEv (ELoad 0 1); SEv (EClone 1 0); SEv (EStore 1 1);
